@@ -1,3 +1,3 @@
 SPECIFICATION TSpec
-INVARIANTS TMacSoundReq TMacSoundResp TAuthReply TAuthReplyClient TReplyAddressing TForwardRule TNoStrayToEh
-  SOne SGroundTruth SAct SReply SResp SClient SClientLog SNoStray SKey
+INVARIANTS TMacSoundReq TMacSoundFetcher TMacSoundResp TAuthReply TAuthReplyClient TReplyAddressing TForwardRule TNoStrayToEh
+  SOne SGroundTruth SAct SReply SResp SClient SClientLog SNoStray SKey SFKey
